@@ -849,6 +849,31 @@ func orderName(bp blockProg, order []int) string {
 
 func blocksSection(r *vk.Run) section {
 	thorough := r.Thorough()
+	progs := blockPrograms(r)
+	return section{"layout-blocks", len(progs), func(j int, emit func(prog)) {
+		bp := progs[j]
+		n := len(bp.blocks)
+		all := n <= 5 || (thorough && n <= 6)
+		fam := strings.SplitN(bp.name, "[", 2)[0]
+		for _, order := range layoutsOf(n, all) {
+			for _, long := range []bool{false, true} {
+				s, err := assembleBlocks(bp, order, long)
+				if err != nil {
+					panic("layout-blocks: " + bp.name + ": " + err.Error())
+				}
+				layoutCnt.note(layoutCnt.shapes, "blocks:"+fam)
+				if order[0] != 0 {
+					layoutCnt.note(layoutCnt.shapes, "blocks:block-at-position-0="+bp.blocks[order[0]].name)
+				}
+				emit(prog{Key: "BLOCKS:" + bp.name + ":" + orderName(bp, order) + ":" + formName(long), Class: "BLOCKS-" + fam, Script: s, Steps: layoutStepLimit})
+			}
+		}
+	}}
+}
+
+// blockPrograms: the block programs of layout-blocks (also the second programs
+// of reuse-blocks).
+func blockPrograms(r *vk.Run) []blockProg {
 	var progs []blockProg
 	shapes := []string{"C", "F", "CF"}
 	kindsFor := func(shape string, region byte, ks []string) []string {
@@ -908,25 +933,7 @@ func blocksSection(r *vk.Run) section {
 			progs = append(progs, pendingStray(k, outer))
 		}
 	}
-	return section{"layout-blocks", len(progs), func(j int, emit func(prog)) {
-		bp := progs[j]
-		n := len(bp.blocks)
-		all := n <= 5 || (thorough && n <= 6)
-		fam := strings.SplitN(bp.name, "[", 2)[0]
-		for _, order := range layoutsOf(n, all) {
-			for _, long := range []bool{false, true} {
-				s, err := assembleBlocks(bp, order, long)
-				if err != nil {
-					panic("layout-blocks: " + bp.name + ": " + err.Error())
-				}
-				layoutCnt.note(layoutCnt.shapes, "blocks:"+fam)
-				if order[0] != 0 {
-					layoutCnt.note(layoutCnt.shapes, "blocks:block-at-position-0="+bp.blocks[order[0]].name)
-				}
-				emit(prog{Key: "BLOCKS:" + bp.name + ":" + orderName(bp, order) + ":" + formName(long), Class: "BLOCKS-" + fam, Script: s, Steps: layoutStepLimit})
-			}
-		}
-	}}
+	return progs
 }
 
 // ---- family 3: sequences of exception-handling cells ------------------------------------------------
@@ -1142,8 +1149,8 @@ func layoutSections(r *vk.Run) []section {
 
 type famStat struct {
 	programs, halt, fault, thrown int64
-	outcomes                             *hashSet
-	undet                                map[string]int64
+	outcomes                      *hashSet
+	undet                         map[string]int64
 }
 
 var (
